@@ -185,6 +185,10 @@ class _InMemoryResult(Result):
       self, dna_fn: Callable[[], geno.DNA], group_id: str) -> Trial:
     """Appends a trial to the result."""
     with self._lock:
+      # A co-worker of the group may have created the next trial in between.
+      trial = self._latest_trial_per_group.get(group_id, None)
+      if trial is not None and trial.status == 'PENDING':
+        return trial
       if (self._max_num_trials is not None
           and self.next_trial_id() > self._max_num_trials):
         raise StopIteration()
